@@ -522,6 +522,279 @@ theorem computeList (fol : List Tok) (hs : TP2.stopLE2 d 8 fol = true) (hc : sea
     simpa using h2
 
 
+theorem s0cons (a : Tok) (x : List Tok) (p : String) : searchStr (a :: x) p = a.srcEq p := rfl
+theorem s1cons (a : Tok) (x : List Tok) (p : String) : searchStrUp (a :: x) p = a.srcEqUp p := rfl
+theorem s2cons (a b : Tok) (x : List Tok) (p q : String) : searchTwoUp (a :: b :: x) p q = (a.srcEqUp p && b.srcEqUp q) := rfl
+
+/-! ### GROUP BY keys [GROUPING SETS (…)] [WITH CUBE] [WITH ROLLUP] -/
+/-- segments joined by commas -/
+def joinCT : List (List Tok) → List Tok
+  | [] => []
+  | s :: r => TP2.commaTok :: (s ++ joinCT r)
+def joinC : List (List Tok) → List Tok
+  | [] => []
+  | s :: r => s ++ joinCT r
+theorem splitBy_seg : ∀ (seg : List Tok), NoComma seg → ∀ (cur : List Tok) (acc : List (List Tok)) (rest' : List Tok),
+    splitBy "," (seg ++ rest') cur acc = splitBy "," rest' (cur ++ seg) acc := by
+  intro seg
+  induction seg with
+  | nil => intro _ cur acc rest'; simp
+  | cons t seg ih =>
+    intro hnc cur acc rest'
+    have ht := hnc t (by simp)
+    simp only [List.cons_append, splitBy, ht, Bool.false_eq_true, if_false]
+    rw [ih (fun x hx => hnc x (by simp [hx]))]
+    simp
+theorem splitBy_tail : ∀ (segs : List (List Tok)), (∀ s ∈ segs, NoComma s ∧ s ≠ []) → ∀ (cur : List Tok) (acc : List (List Tok)), cur ≠ [] →
+    splitBy "," (joinCT segs) cur acc = acc ++ [cur] ++ segs := by
+  intro segs
+  induction segs with
+  | nil =>
+    intro _ cur acc hne
+    have : cur.isEmpty = false := by cases cur <;> simp_all
+    simp [joinCT, splitBy, this]
+  | cons s r ih =>
+    intro h cur acc hne
+    have : cur.isEmpty = false := by cases cur <;> simp_all
+    obtain ⟨hs1, hs2⟩ := h s (by simp)
+    simp only [joinCT, splitBy, comma_equals, if_true, this, Bool.false_eq_true, if_false]
+    rw [splitBy_seg s hs1, ih (fun x hx => h x (by simp [hx])) _ _ (by simpa using hs2)]
+    simp
+theorem splitBy_join (segs : List (List Tok)) (h : ∀ s ∈ segs, NoComma s ∧ s ≠ []) : splitBy "," (joinC segs) [] [] = segs := by
+  cases segs with
+  | nil => simp [joinC, splitBy]
+  | cons s r =>
+    obtain ⟨hs1, hs2⟩ := h s (by simp)
+    simp only [joinC]
+    rw [splitBy_seg s hs1, splitBy_tail r (fun x hx => h x (by simp [hx])) _ _ (by simpa using hs2)]
+    simp
+theorem sizeL_joinCT_le (segs : List (List Tok)) : sizeL (joinCT segs) ≤ sizeL (joinC segs) + 1 := by
+  cases segs with
+  | nil => simp [joinCT, joinC, sizeL]
+  | cons s r =>
+    have : TP2.commaTok.size = 1 := by decide
+    simp only [joinCT, joinC, sizeL_cons, sizeL_append, this]; omega
+theorem argsTail_join (es : List Expr) : toksArgsTail4 d ch 8 es = joinCT (es.map (fun e => W4 d ch e 8)) := by
+  induction es with
+  | nil => simp only [toksArgsTail4, List.map_nil, joinCT]
+  | cons e es ih => simp only [toksArgsTail4, List.map_cons, joinCT, ih, W4]
+theorem args_join (es : List Expr) : toksArgs4 d ch 8 es = joinC (es.map (fun e => W4 d ch e 8)) := by
+  cases es with
+  | nil => simp only [toksArgs4, List.map_nil, joinC]
+  | cons e es => simp only [toksArgs4, List.map_cons, joinC, argsTail_join, W4]
+theorem setsTail_join (l : List (List Expr)) : toksSetsTail4 d ch l = joinCT (l.map (toksSet4 d ch)) := by
+  induction l with
+  | nil => simp only [toksSetsTail4, List.map_nil, joinCT]
+  | cons g l ih => simp only [toksSetsTail4, List.map_cons, joinCT, ih]
+theorem sets_join (l : List (List Expr)) : toksSets4 d ch l = joinC (l.map (toksSet4 d ch)) := by
+  cases l with
+  | nil => simp only [toksSets4, List.map_nil, joinC]
+  | cons g l => simp only [toksSets4, List.map_cons, joinC, setsTail_join]
+theorem key8_closed (e : Expr) (he : RT4 d ch e) : OkAt (fun f => closed (pCompute d f (W4 d ch e 8))) (20 * sizeL (W4 d ch e 8) + 2) e := by
+  intro f hf
+  have := key8 e he [] (TP2.stopLE2_nil d 8) f hf
+  simp only [List.append_nil] at this
+  simp only [this, closed]
+theorem closedEach_ok : ∀ (es : List Expr), (∀ e ∈ es, RT4 d ch e) → ∀ (acc : List Expr) (f : Nat),
+    20 * sizeL (joinCT (es.map (fun e => W4 d ch e 8))) + 3 ≤ f → pClosedEach d f acc (es.map (fun e => W4 d ch e 8)) = .ok (acc ++ es) := by
+  intro es
+  induction es with
+  | nil =>
+    intro _ acc f hf
+    obtain ⟨g, rfl⟩ : ∃ g, f = g + 1 := ⟨f - 1, by omega⟩
+    simp [pClosedEach]
+  | cons e es ih =>
+    intro hes acc f hf
+    have hsz : TP2.commaTok.size = 1 := by decide
+    simp only [List.map_cons, joinCT, sizeL_cons, sizeL_append, hsz] at hf
+    obtain ⟨g, rfl⟩ : ∃ g, f = g + 1 := ⟨f - 1, by omega⟩
+    have h1 := key8_closed e (hes e (by simp)) g (by omega)
+    have h2 := ih (fun x hx => hes x (by simp [hx])) (acc ++ [e]) g (by omega)
+    simp only at h1
+    simp only [List.map_cons]
+    unfold pClosedEach
+    simp only [h1, h2, List.append_assoc, List.singleton_append]
+theorem args_segs (es : List Expr) (hes : ∀ e ∈ es, RT4 d ch e) : ∀ s ∈ es.map (fun e => W4 d ch e 8), NoComma s ∧ s ≠ [] := by
+  intro s hs
+  simp only [List.mem_map] at hs
+  obtain ⟨e, he, rfl⟩ := hs
+  exact ⟨(hes e he).ncW 8, (hes e he).neW 8⟩
+/-- a bracketed grouping set `(e₁, …, eₙ)` (also `()` and the doubly bracketed single element) -/
+theorem groupElem_paren (g : List Expr) (hg : ∀ e ∈ g, RT4 d ch e) :
+    OkAt (fun f => pGroupingElem d f [grp (toksArgs4 d ch 8 g)]) (20 * sizeL (toksArgs4 d ch 8 g) + 25) g := by
+  intro f hf
+  obtain ⟨f1, rfl⟩ : ∃ f1, f = f1 + 1 := ⟨f - 1, by omega⟩
+  have hsp : splitBy "," (toksArgs4 d ch 8 g) [] [] = g.map (fun e => W4 d ch e 8) := by
+    rw [args_join]; exact splitBy_join _ (args_segs g hg)
+  have h2 := closedEach_ok g hg [] f1 (by
+    have := sizeL_joinCT_le (g.map (fun e => W4 d ch e 8))
+    rw [args_join] at hf; omega)
+  unfold pGroupingElem
+  simp only [grp_paren, if_true, children_grp, hsp, h2, List.nil_append, List.isEmpty_nil]
+/-- a single bare element -/
+theorem groupElem_bare (e : Expr) (he : RT4 d ch e) (hh : headIsGrp (W4 d ch e 8) = false) :
+    OkAt (fun f => pGroupingElem d f (W4 d ch e 8)) (20 * sizeL (W4 d ch e 8) + 3) [e] := by
+  intro f hf
+  obtain ⟨f1, rfl⟩ : ∃ f1, f = f1 + 1 := ⟨f - 1, by omega⟩
+  have h1 := key8_closed e he f1 (by omega)
+  simp only at h1
+  obtain ⟨t, ts', hw, _⟩ := he.headW 8
+  rw [hw] at hh h1 ⊢
+  simp only [headIsGrp] at hh
+  unfold pGroupingElem
+  simp only [hh, Bool.false_eq_true, if_false, h1]
+theorem toksSet4_cases (g : List Expr) : toksSet4 d ch g = [grp (toksArgs4 d ch 8 g)] ∨
+    ∃ e, g = [e] ∧ toksSet4 d ch g = W4 d ch e 8 ∧ headIsGrp (W4 d ch e 8) = false := by
+  cases g with
+  | nil => left; simp only [toksSet4, toksArgs4]
+  | cons e r =>
+    cases r with
+    | nil =>
+      by_cases h : headIsGrp (W4 d ch e 8) = true
+      · left; simp only [W4] at h; simp only [toksSet4, h, if_true, toksArgs4, toksArgsTail4, List.append_nil]
+      · right; simp only [Bool.not_eq_true] at h
+        refine ⟨e, rfl, ?_, h⟩
+        simp only [W4] at h; simp only [toksSet4, h, Bool.false_eq_true, if_false, W4]
+    | cons e2 es => left; simp only [toksSet4, toksArgs4, toksArgsTail4]
+theorem groupElem_ok (g : List Expr) (hg : ∀ e ∈ g, RT4 d ch e) :
+    OkAt (fun f => pGroupingElem d f (toksSet4 d ch g)) (20 * sizeL (toksSet4 d ch g) + 5) g ∧ NoComma (toksSet4 d ch g) ∧ toksSet4 d ch g ≠ [] := by
+  rcases toksSet4_cases (d := d) (ch := ch) g with h | ⟨e, rfl, h, hh⟩
+  · rw [h]
+    refine ⟨(groupElem_paren g hg).mono ?_, grp_nocomma _, by simp⟩
+    simp only [sizeL, size_grp]; omega
+  · rw [h]
+    have he := hg e (by simp)
+    exact ⟨(groupElem_bare e he hh).mono (by omega), he.ncW 8, he.neW 8⟩
+theorem groupElems_ok : ∀ (l : List (List Expr)), (∀ g ∈ l, ∀ e ∈ g, RT4 d ch e) → ∀ (acc : List (List Expr)) (f : Nat),
+    20 * sizeL (joinCT (l.map (toksSet4 d ch))) + 6 ≤ f → pGroupingElems d f acc (l.map (toksSet4 d ch)) = .ok (acc ++ l) := by
+  intro l
+  induction l with
+  | nil =>
+    intro _ acc f hf
+    obtain ⟨g, rfl⟩ : ∃ g, f = g + 1 := ⟨f - 1, by omega⟩
+    simp [pGroupingElems]
+  | cons g0 l ih =>
+    intro hl acc f hf
+    have hsz : TP2.commaTok.size = 1 := by decide
+    simp only [List.map_cons, joinCT, sizeL_cons, sizeL_append, hsz] at hf
+    obtain ⟨g, rfl⟩ : ∃ g, f = g + 1 := ⟨f - 1, by omega⟩
+    have h1 := (groupElem_ok g0 (hl g0 (by simp))).1 g (by omega)
+    have h2 := ih (fun x hx => hl x (by simp [hx])) (acc ++ [g0]) g (by omega)
+    simp only at h1
+    simp only [List.map_cons]
+    unfold pGroupingElems
+    simp only [h1, h2, List.append_assoc, List.singleton_append]
+
+def SetsRec (d : Gen.D) (ch : Expr → Bool) : Option (List (List Expr)) → Prop
+  | none => True
+  | some l => ∀ g ∈ l, ∀ e ∈ g, RT4 d ch e
+def GroupRec (d : Gen.D) (ch : Expr → Bool) : Option GroupBy → Prop
+  | none => True
+  | some (.mk cols sets _ _) => (∀ e ∈ cols, RT4 d ch e) ∧ SetsRec d ch sets ∧ (cols = [] → sets.isSome = true) ∧
+      (∀ e es, cols = e :: es → searchStrUp (W4 d ch e 8) "GROUPING" = false)
+def cubeT (b : Bool) : List Tok := if b then [opTok "WITH", opTok "CUBE"] else []
+def rollT (b : Bool) : List Tok := if b then [opTok "WITH", opTok "ROLLUP"] else []
+theorem group_words : (opTok "WITH").srcEqUp "WITH" = true ∧ (opTok "CUBE").srcEqUp "CUBE" = true ∧ (opTok "ROLLUP").srcEqUp "ROLLUP" = true ∧
+    (opTok "ROLLUP").srcEqUp "CUBE" = false ∧ (opTok "WITH").srcEqUp "GROUPING" = false ∧ (opTok "GROUPING").srcEqUp "GROUPING" = true ∧
+    (opTok "SETS").srcEqUp "SETS" = true ∧ (opTok "GROUPING").equalsStr "GROUPING" = true ∧ (opTok "SETS").equalsStr "SETS" = true ∧
+    (opTok "WITH").srcEq "," = false ∧ (opTok "GROUPING").srcEq "," = false ∧ (opTok "GROUP").srcEqUp "GROUP" = true ∧
+    (opTok "BY").srcEqUp "BY" = true := by decide
+theorem with_stop8 (x : List Tok) : TP2.stopLE2 d 8 (opTok "WITH" :: x) = true ∧ TP2.stopLE2 d 8 (opTok "GROUPING" :: x) = true := by
+  have h : stopTok d 8 (opTok "WITH") = true ∧ stopTok d 8 (opTok "GROUPING") = true := by cases d <;> decide
+  exact ⟨TP2.stop2_of x h.1 (by decide), TP2.stop2_of x h.2 (by decide)⟩
+/-- what follows the keys of GROUP BY: `GROUPING SETS (…)`, `WITH CUBE`, `WITH ROLLUP`, or what follows the clause -/
+theorem group_tail (sets : Option (List (List Expr))) (cube rollup : Bool) (fol : List Tok) (hb : Bd4 d 5 fol = true) :
+    TP2.stopLE2 d 8 (toksSetsOpt4 d ch sets ++ (cubeT cube ++ (rollT rollup ++ fol))) = true ∧
+    searchStr (toksSetsOpt4 d ch sets ++ (cubeT cube ++ (rollT rollup ++ fol))) "," = false ∧
+    searchTwoUp (toksSetsOpt4 d ch sets ++ (cubeT cube ++ (rollT rollup ++ fol))) "GROUPING" "SETS" = sets.isSome ∧
+    moveTwoUp (cubeT cube ++ (rollT rollup ++ fol)) "WITH" "CUBE" = (cube, rollT rollup ++ fol) ∧
+    moveTwoUp (rollT rollup ++ fol) "WITH" "ROLLUP" = (rollup, fol) := by
+  obtain ⟨k1, k2, k3, k4, k5, k6, k7, _, _, k10, k11, _⟩ := group_words
+  have r0 : rank4 "GROUPING" = 0 := by decide
+  have rw0 : rank4 "WITH" = 0 := by decide
+  have f8 : TP2.stopLE2 d 8 fol = true := TP2.stopLE2_mono (bd3_stops hb) (by omega)
+  have fc := bd_comma hb
+  have fg := bd_search2 hb "GROUPING" "SETS" (by omega)
+  have fwc := bd_search2 hb "WITH" "CUBE" (by omega)
+  have fwr := bd_search2 hb "WITH" "ROLLUP" (by omega)
+  cases sets <;> cases cube <;> cases rollup <;>
+    simp [toksSetsOpt4, cubeT, rollT, moveTwoUp, s2cons, s0cons, (with_stop8 (d := d) _).1, (with_stop8 (d := d) _).2, k1, k2, k3, k4, k5, k6, k7,
+      k10, k11, f8, fc, fg, fwc, fwr]
+theorem groupBy (gb : Option GroupBy) (hg : GroupRec d ch gb) (fol : List Tok) (hb : Bd4 d 5 fol = true) :
+    OkAt (fun f => pGroupBy d f (toksGroup4 d ch gb ++ fol)) (20 * sizeL (toksGroup4 d ch gb) + 6) (gb, fol) := by
+  have r5 : rank4 "GROUP" = 5 := by decide
+  obtain ⟨_, _, _, _, _, _, _, k8, k9, _, _, k12, k13⟩ := group_words
+  cases gb with
+  | none =>
+    intro f hf'
+    obtain ⟨g, rfl⟩ : ∃ g, f = g + 1 := ⟨f - 1, by omega⟩
+    simp [toksGroup4, pGroupBy, bd_search2 hb "GROUP" "BY" (by omega)]
+  | some gbv =>
+    obtain ⟨cols, sets, cube, rollup⟩ := gbv
+    obtain ⟨hcols, hsets, hne, hnog⟩ := hg
+    obtain ⟨t8, tc, tg, tmc, tmr⟩ := group_tail (ch := ch) sets cube rollup fol hb
+    have e1 : toksGroup4 d ch (some (.mk cols sets cube rollup)) =
+        opTok "GROUP" :: opTok "BY" :: (toksArgs4 d ch 8 cols ++ (toksSetsOpt4 d ch sets ++ (cubeT cube ++ rollT rollup))) := by
+      simp only [toksGroup4, cubeT, rollT]
+    intro f hf'
+    simp only [e1, sizeL_cons, sizeL_append, size_opTok] at hf'
+    obtain ⟨g, rfl⟩ : ∃ g, f = g + 3 := ⟨f - 3, by omega⟩
+    have hst : ∀ x, searchTwoUp (opTok "GROUP" :: opTok "BY" :: x) "GROUP" "BY" = true := by
+      intro x; simp [s2cons, k12, k13]
+    -- the keys
+    have hcolsP : pGroupCols d (g + 2) (toksArgs4 d ch 8 cols ++ (toksSetsOpt4 d ch sets ++ (cubeT cube ++ (rollT rollup ++ fol)))) =
+        .ok (cols, toksSetsOpt4 d ch sets ++ (cubeT cube ++ (rollT rollup ++ fol))) := by
+      cases cols with
+      | nil =>
+        have := hne rfl
+        unfold pGroupCols
+        simp [toksArgs4, tg, this]
+      | cons e es =>
+        have he := hcols e (by simp)
+        have hng : searchTwoUp (W4 d ch e 8 ++ (toksArgsTail4 d ch 8 es ++ (toksSetsOpt4 d ch sets ++ (cubeT cube ++ (rollT rollup ++ fol))))) "GROUPING" "SETS" = false := by
+          have hno := hnog e es rfl
+          obtain ⟨t, ts', hw, _⟩ := he.headW 8
+          rw [hw] at hno ⊢
+          have : t.srcEqUp "GROUPING" = false := by simpa [searchStrUp] using hno
+          cases hx : ts' ++ (toksArgsTail4 d ch 8 es ++ (toksSetsOpt4 d ch sets ++ (cubeT cube ++ (rollT rollup ++ fol)))) with
+          | nil => simp [searchTwoUp, hx]
+          | cons y r => simp [searchTwoUp, hx, this]
+        have h1 : pCompute d (g + 1) (W4 d ch e 8 ++ (toksArgsTail4 d ch 8 es ++ (toksSetsOpt4 d ch sets ++ (cubeT cube ++ (rollT rollup ++ fol))))) =
+            .ok (e, toksArgsTail4 d ch 8 es ++ (toksSetsOpt4 d ch sets ++ (cubeT cube ++ (rollT rollup ++ fol)))) :=
+          key8 e he _ (stop8_tail (keysTail_shape es) t8) (g + 1) (by simp only [toksArgs4, sizeL_append, W4] at hf' ⊢; omega)
+        have h2 := computeList _ t8 tc es (fun x hx => hcols x (by simp [hx])) [e] (g + 1) (by simp only [toksArgs4, sizeL_append] at hf'; omega)
+        unfold pGroupCols
+        simp only [toksArgs4, List.append_assoc]
+        simp only [W4] at hng h1
+        simp only [hng, Bool.false_eq_true, if_false, h1]
+        simpa using h2
+    -- the sets
+    have hsetsP : pGroupSetsOpt d (g + 2) (toksSetsOpt4 d ch sets ++ (cubeT cube ++ (rollT rollup ++ fol))) = .ok (sets, cubeT cube ++ (rollT rollup ++ fol)) := by
+      cases sets with
+      | none =>
+        unfold pGroupSetsOpt
+        simp only [toksSetsOpt4, List.nil_append] at tg ⊢
+        simp [tg]
+      | some l =>
+        have hsp : splitBy "," (toksSets4 d ch l) [] [] = l.map (toksSet4 d ch) := by
+          rw [sets_join]
+          refine splitBy_join _ (fun s hs => ?_)
+          simp only [List.mem_map] at hs
+          obtain ⟨g0, hg0, rfl⟩ := hs
+          exact (groupElem_ok g0 (hsets g0 hg0)).2
+        have h2 := groupElems_ok l hsets [] g (by
+          have := sizeL_joinCT_le (l.map (toksSet4 d ch))
+          simp only [toksSetsOpt4, sizeL_cons, size_opTok, size_grp, sets_join, sizeL] at hf'
+          omega)
+        unfold pGroupSetsOpt
+        simp only [tg, Option.isSome_some, if_true]
+        unfold pGroupingSets
+        simp only [toksSetsOpt4, List.cons_append, List.nil_append, matchSeq, k8, k9, if_true, children_grp, hsp, h2]
+    show pGroupBy d (g + 3) (toksGroup4 d ch (some (.mk cols sets cube rollup)) ++ fol) = _
+    unfold pGroupBy
+    simp only [e1, List.cons_append, List.append_assoc, hst, Bool.not_true, Bool.false_eq_true, if_false, List.drop_succ_cons, List.drop_zero,
+      hcolsP, hsetsP, tmc, tmr]
+
 /-! ### ORDER BY / SORT BY: items with direction and NULLS FIRST / LAST -/
 structure OFol (d : Gen.D) (fol : List Tok) : Prop where
   desc : searchStrUp fol "DESC" = false
@@ -552,8 +825,6 @@ def nullsToks (nf nl : Bool) : List Tok := (if nf then [opTok "NULLS", opTok "FI
 theorem order_words : (opTok "DESC").srcEqUp "DESC" = true ∧ (opTok "NULLS").srcEqUp "DESC" = false ∧ (opTok "NULLS").srcEqUp "ASC" = false ∧
     (opTok "NULLS").srcEqUp "NULLS" = true ∧ (opTok "FIRST").srcEqUp "FIRST" = true ∧ (opTok "LAST").srcEqUp "LAST" = true ∧
     (opTok "LAST").srcEqUp "FIRST" = false ∧ (opTok "FIRST").srcEqUp "LAST" = false := by decide
-theorem s1cons (a : Tok) (x : List Tok) (p : String) : searchStrUp (a :: x) p = a.srcEqUp p := rfl
-theorem s2cons (a b : Tok) (x : List Tok) (p q : String) : searchTwoUp (a :: b :: x) p q = (a.srcEqUp p && b.srcEqUp q) := rfl
 /-- the tail of an order item: `[DESC] [NULLS FIRST] [NULLS LAST]`, not both NULLS phrases -/
 theorem orderTail_ok (e : Expr) (desc nf nl : Bool) (hn : (nf && nl) = false) (fol : List Tok) (hf : OFol d fol) :
     orderTail e ((if desc then [opTok "DESC"] else []) ++ (nullsToks nf nl ++ fol)) = .ok (.mk e desc nf nl, fol) := by
